@@ -14,6 +14,12 @@ use std::time::Instant;
 pub const DEFAULT_SEED: u64 = 20261002;
 const VERIF_DIR: &str = "/verif";
 
+/// where replays are written; ACPISIM_OUT redirects them for scratch sweeps (mutation analysis) so
+/// that a sweep never touches /verif. The registered checks never set it.
+fn out_dir() -> String {
+    std::env::var("ACPISIM_OUT").unwrap_or_else(|_| VERIF_DIR.to_string())
+}
+
 pub struct Batch {
     pub name: &'static str,
     pub cfg: GenCfg,
@@ -574,8 +580,8 @@ pub fn check(prop: &str, tier: &str, profile: &str, evidence_path: Option<String
             }
             let res = execute(&small, props, false);
             let detail = res.viol.iter().find(|v| v.prop == f.v.prop && v.inv == f.v.inv).map(|v| v.detail.clone()).unwrap_or_else(|| f.v.detail.clone());
-            let path = format!("{}/replays/{}-{}-{}-{}.json", VERIF_DIR, prop, seed, b.name, f.run);
-            let _ = std::fs::create_dir_all(format!("{}/replays", VERIF_DIR));
+            let path = format!("{}/replays/{}-{}-{}-{}.json", out_dir(), prop, seed, b.name, f.run);
+            let _ = std::fs::create_dir_all(format!("{}/replays", out_dir()));
             let tf = trace_file(prop, f.v.inv, b.name, seed, f.run, small.k, &detail, &small, profile);
             std::fs::write(&path, tf.to_string_pretty()).unwrap_or_else(|e| panic!("cannot write replay {}: {}", path, e));
             // the minimised file must reproduce in a fresh process before it is reported
@@ -658,8 +664,8 @@ pub fn check(prop: &str, tier: &str, profile: &str, evidence_path: Option<String
         )
         .set("wall_s", J::F(wall))
         .set("violations", J::U(new_violations.len() as u64));
-    let evp = evidence_path.unwrap_or_else(|| format!("{}/evidence/{}.json", VERIF_DIR, prop));
-    let _ = std::fs::create_dir_all(format!("{}/evidence", VERIF_DIR));
+    let evp = evidence_path.unwrap_or_else(|| format!("{}/evidence/{}.json", out_dir(), prop));
+    let _ = std::fs::create_dir_all(format!("{}/evidence", out_dir()));
     std::fs::write(&evp, ev.to_string_pretty()).unwrap_or_else(|e| panic!("cannot write evidence {}: {}", evp, e));
     for (k, v) in &known_hits {
         println!("KNOWN-FINDING: {} ({} runs)", k, v);
